@@ -46,7 +46,7 @@ P_SPARSE = ['0', '1', '(-1)', '2', '3', '(-8)', '65536', '(-2147483647-1)']
 P_VAR = ['0', '1', '(-1)', '3', '(-181)', '32767']
 
 
-def lwe_groups(tag):
+def lwe_groups(tag, tier='quick'):
     gs = []
     for fn in ['lweClear', 'lweCopy', 'lweNegate', 'lweNoiselessTrivial', 'lweAddTo', 'lweSubTo']:
         gs.append(Group('%s.%s' % (tag, fn), 'c14_lwe.c', 'h_' + fn, extract=[(LF, fn)], enforce=fn, loops=True, replay=('lwe', fn)))
@@ -57,7 +57,7 @@ def lwe_groups(tag):
         gs.append(Group('%s.lweSubMulTo.coord.p=%s' % (tag, P), 'c14_lwe.c', 'h_lweSubMulTo', extract=[(LF, 'lweSubMulTo')], enforce='lweSubMulTo',
                         loops=True, defines={'KNOB_NOVAR': None, 'VERIF_PCONST': P}, replay=('lwe', 'lweSubMulTo'), instance={'p': P}))
     for fn, d in (('lweAddMulTo', {}), ('lweSubMulTo', {'B_SUB': None})):
-        for P in P_VAR:
+        for P in (P_VAR if tier == 'thorough' else ['3', '(-181)']):
             dd = dict(d)
             dd['VERIF_PCONST'] = P
             gs.append(Group('%s.%s.var.bounded.p=%s' % (tag, fn, P), 'c14_lwe.c', 'h_b_lweMulTo_var', extract=[(LF, fn)], unwind=4,
@@ -95,16 +95,22 @@ TLWE_CALLS = {
 
 def tlwe_groups(tag, tier):
     gs = []
-    Ks = [1, 2] if tier == 'quick' else [1, 2, 3]
+    Ks = [1] if tier == 'quick' else [1, 2, 3]
     for K in Ks:
         for fn, rep in TLWE_CALLS.items():
             for gi in range(K + 1):
                 gs.append(Group('%s.%s.k=%d.gi=%d' % (tag, fn, K, gi), 'c14_tlwe.c', 'h_' + fn, extract=[(TL, fn)], enforce=fn, replace=rep,
                                 unwind=K + 3, defines={'VERIF_K': K, 'VERIF_GI': gi}, instance={'k': K, 'g_i': gi}, replay=('tlwe', fn)))
         for gi in range(K + 1):
-            gs.append(Group('%s.tLweAddMulTo.k=%d.gi=%d' % (tag, K, gi), 'c14_tlwe.c', 'h_tLweAddMulTo', extract=[(TL, 'tLweAddMulTo')],
-                            enforce='tLweAddMulTo', replace=['torusPolynomialAddMulZTo'], unwind=K + 3, backend='cvc5',
-                            defines={'VERIF_K': K, 'VERIF_GI': gi}, instance={'k': K, 'g_i': gi}, replay=('tlwe', 'tLweAddMulTo')))
+            if K == 1:   # all multipliers p at once (cvc5); for k >= 2 cvc5 does not finish: enumerated multipliers below
+                gs.append(Group('%s.tLweAddMulTo.k=%d.gi=%d' % (tag, K, gi), 'c14_tlwe.c', 'h_tLweAddMulTo', extract=[(TL, 'tLweAddMulTo')],
+                                enforce='tLweAddMulTo', replace=['torusPolynomialAddMulZTo'], unwind=K + 3, backend='cvc5', timeout=1800,
+                                defines={'VERIF_K': K, 'VERIF_GI': gi}, instance={'k': K, 'g_i': gi}, replay=('tlwe', 'tLweAddMulTo')))
+            else:
+                for P in P_SPARSE:
+                    gs.append(Group('%s.tLweAddMulTo.k=%d.gi=%d.p=%s' % (tag, K, gi, P), 'c14_tlwe.c', 'h_tLweAddMulTo', extract=[(TL, 'tLweAddMulTo')],
+                                    enforce='tLweAddMulTo', replace=['torusPolynomialAddMulZTo'], unwind=K + 3,
+                                    defines={'VERIF_K': K, 'VERIF_GI': gi, 'VERIF_PCONST': P}, instance={'k': K, 'g_i': gi, 'p': P}, replay=('tlwe', 'tLweAddMulTo')))
             for P in (P_SPARSE if tier == 'thorough' else ['3', '(-1)']):
                 gs.append(Group('%s.tLweSubMulTo.k=%d.gi=%d.p=%s' % (tag, K, gi, P), 'c14_tlwe.c', 'h_tLweSubMulTo', extract=[(TL, 'tLweSubMulTo')],
                                 enforce='tLweSubMulTo', replace=['torusPolynomialSubMulZTo'], unwind=K + 3,
@@ -123,10 +129,58 @@ def tlwe_groups(tag, tier):
 
 
 def c14_groups(tier):
-    return lwe_groups('C14') + poly_cw_groups('C14') + poly_mono_groups('C14')[1:2] + tlwe_groups('C14', tier) + [
+    return lwe_groups('C14', tier) + poly_cw_groups('C14') + poly_mono_groups('C14')[1:2] + tlwe_groups('C14', tier) + [
         Group('C14.lemma.linearity', 'lemmas.c', 'h_lemma_linearity', backend='z3'),
         Group('C14.lemma.extract_term', 'lemmas.c', 'h_lemma_extract_term', backend='z3'),
     ]
+
+
+TG = 'tgsw-functions.cpp'
+
+
+def rows_inc(L, K=1):
+    r = range(L)
+    r2 = range((K + 1) * L)
+    return ('#define DEC_AND(M) (%s)\n#define DEC_COMMA(M) %s\n#define DEC_PLUS(M) (%s)\n' % (
+        ' && '.join('M(%d)' % q for q in r), ', '.join('M(%d)' % q for q in r), ' + '.join('M(%d)' % q for q in r))
+        + '#define DEC2_AND(M) (%s)\n#define DEC2_COMMA(M) %s\n' % (' && '.join('M(%d)' % q for q in r2), ', '.join('M(%d)' % q for q in r2)))
+
+
+def valid_layouts():
+    # Bg = 2^Bgbit is stored in an int32_t field, so a layout is valid only for Bgbit <= 30
+    return [(l, b) for b in range(1, 31) for l in range(1, 33) if l * b <= 32]
+
+
+def c12_groups(tier, tag='C12'):
+    gs = []
+    if tier == 'quick':
+        dec = [(3, 7), (2, 10), (4, 8), (2, 2)]
+        lem = [(3, 7), (2, 10), (4, 8), (16, 2), (32, 1), (1, 30), (2, 16), (5, 6)]
+        wrap = [(3, 7, 1), (2, 10, 1), (3, 7, 2)]
+    else:
+        dec = [(l, b) for (l, b) in valid_layouts() if l <= 6] + [(8, 4), (16, 2)]
+        lem = valid_layouts()
+        wrap = [(3, 7, 1), (2, 10, 1), (3, 7, 2), (2, 10, 2), (4, 8, 1), (2, 10, 3)]
+    for (L, B) in dec:
+        d = {'VERIF_L': L, 'VERIF_BGBIT': B, 'VERIF_K': 1}
+        gs.append(Group('%s.DecompH.l=%d.Bgbit=%d' % (tag, L, B), 'c12_decomp.c', 'h_tGswTorus32PolynomialDecompH',
+                        extract=[(TG, 'tGswTorus32PolynomialDecompH')], enforce='tGswTorus32PolynomialDecompH', loops=True, defines=d,
+                        gen={'rows.inc': rows_inc(L)}, timeout=1800, instance={'l': L, 'Bgbit': B}, replay=('decomp', L, B)))
+    for (L, B) in lem:
+        d = {'VERIF_L': L, 'VERIF_BGBIT': B, 'VERIF_K': 1}
+        gs.append(Group('%s.lemma.l=%d.Bgbit=%d' % (tag, L, B), 'c12_decomp.c', 'h_lemma_decomp', defines=d, gen={'rows.inc': rows_inc(L)},
+                        unwind=L + 2, instance={'l': L, 'Bgbit': B}))
+        gs.append(Group('%s.TGswParams.l=%d.Bgbit=%d' % (tag, L, B), 'c12_decomp.c', 'h_TGswParams_ctor',
+                        extract=[('tgsw.cpp', 'TGswParams::TGswParams'), ('tgsw.cpp', 'TGswParams::~TGswParams')], unwind=L + 2, defines=d,
+                        gen={'rows.inc': rows_inc(L)}, cbmc=['--memory-leak-check'], instance={'l': L, 'Bgbit': B}))
+    for (L, B, K) in wrap:
+        for gi in range(K + 1):
+            d = {'VERIF_L': L, 'VERIF_BGBIT': B, 'VERIF_K': K, 'VERIF_GI': gi, 'DECOMP_CALLEE_CONTRACT': None}
+            gs.append(Group('%s.TLweDecompH.l=%d.Bgbit=%d.k=%d.gi=%d' % (tag, L, B, K, gi), 'c12_decomp.c', 'h_tGswTLweDecompH',
+                            extract=[(TG, 'tGswTLweDecompH')], enforce='tGswTLweDecompH', replace=['tGswTorus32PolynomialDecompH'],
+                            unwind=max(K, L) + 3, defines=d, gen={'rows.inc': rows_inc(L, K)}, timeout=1800,
+                            instance={'l': L, 'Bgbit': B, 'k': K, 'g_i': gi}))
+    return gs
 
 
 PROPS = {
@@ -149,6 +203,18 @@ PROPS = {
             'subtract-and-multiply variants (lweSubMulTo, torusPolynomialSubMulZ(To), tLweSubMulTo): coordinate clause proved for the multiplier constants p in {0,1,-1,2,3,-8,65536,INT32_MIN}, not for symbolic p (32-bit multiplier congruence under an index equality is not decided by minisat/cadical/kissat/z3/cvc5 within 5 min; the add variants are decided by cvc5 for all p)',
             'variance annotation of lweAddMulTo/lweSubMulTo (IEEE product): bounded stand-in only (n <= 3, p in {0,1,-1,3,-181,32767}), labelled bounded; tLweAddMulTo/tLweSubMulTo variance clause not claimed',
             'AVX2 inline-assembly subtraction intVecSubTo_avx (optimised builds) is not seen: the proof covers the #else scalar loop of lweSubTo',
+        ],
+        'trusted': [],
+    },
+    'C12': {
+        'groups': c12_groups,
+        'level': 'proof',
+        'explanation': 'Contract on the real scalar body of tGswTorus32PolynomialDecompH (4 loops, nested) for symbolic N and all 2^32 values of the '
+                       'watched coefficient per enumerated layout (l,Bgbit): balanced digits, recomposition bound, input restored, uniform in the position; '
+                       'TLWE wrapper against that contract; TGswParams constructor fields; loop-free arithmetic lemma for the layout grid.',
+        'assumptions': STD_ASSUME + [
+            'AVX2 inline-assembly path of tGswTorus32PolynomialDecompH (optimised builds) is not seen; "vectorised and scalar builds give identical digits" is not decided',
+            'layouts outside the enumerated grid are not covered (quick: 4 layouts for the function contract, 8 for lemma/constructor; thorough: all valid layouts for lemma/constructor, l <= 6 and (8,4),(16,2) for the function contract)',
         ],
         'trusted': [],
     },
